@@ -243,8 +243,8 @@ def t2t_decode(ans):
     if st != 'ok':
         return {'outcome': st, 'detail': rd.rest()[:1]}
     toks = rd.toks(); txt, pos = rd.txtpos(); parts = rd.parts()
-    unknowns = rd.list(rd.str); diags = rd.diags()
-    return {'outcome': 'ok', 'toks': toks, 'txt': txt, 'pos': pos, 'parts': parts, 'unknowns': unknowns, 'diags': diags}
+    unknowns = rd.list(rd.str); diags = rd.diags(); foreign = rd.bool()
+    return {'outcome': 'ok', 'foreign': foreign, 'toks': toks, 'txt': txt, 'pos': pos, 'parts': parts, 'unknowns': unknowns, 'diags': diags}
 
 def norm_diags(ds):
     """(line, col, message up to the first quote): quoted parts go through Python's repr()"""
@@ -276,6 +276,7 @@ def t2t(ctx, cases, results, proj=('outcome', 'toks', 'text', 'diags', 'unknowns
             continue
         if r['outcome'] != 'ok':
             continue
+        ctx.count('model_ok_foreign_true' if m.get('foreign') else 'model_ok_foreign_false')
         if 'toks' in proj and r.get('toks') is not None and m['toks'] != r['toks']:
             a, b = r['toks'], m['toks']
             k = next((j for j in range(min(len(a), len(b))) if a[j] != b[j]), min(len(a), len(b)))
